@@ -59,7 +59,7 @@ def s_case(draw, tier):
     n = draw(st.integers(3, 8 if tier == "quick" else 14))
     ops = []
     for _ in range(n):
-        kind = draw(st.sampled_from(["set", "set", "eval", "eval", "bath", "eval-bath", "compute", "compute"]))
+        kind = draw(st.sampled_from(["set", "set", "eval", "eval", "bath", "eval-bath", "compute", "compute", "make-pt", "make-pt", "use-pt", "use-pt", "use-pt"]))
         c = draw(st.integers(0, 1))
         if kind == "set":
             attr = draw(st.sampled_from(ATTRS_PL if c == 0 else ATTRS_CU))
@@ -72,6 +72,12 @@ def s_case(draw, tier):
         elif kind == "eval-bath":
             ops.append({"op": "eval-bath", "b": draw(st.integers(0, 3)),
                         "what": draw(st.sampled_from(["correlation", "spectral_density", "2d-square"])), "x": draw(st.sampled_from([0.1, 0.3]))})
+        elif kind == "make-pt":
+            ops.append({"op": "make-pt", "c": c, "rot": draw(st.booleans())})
+        elif kind == "use-pt":
+            ops.append({"op": "use-pt", "p": draw(st.integers(0, 3)),
+                        "kind": draw(st.sampled_from(["dynamics", "correlations", "gradient", "pt-tebd", "tensors"])),
+                        "layout": draw(st.sampled_from(LAYOUTS))})
         else:
             ops.append({"op": "compute", "c": c, "b": draw(st.integers(0, 3)), "use_bath": draw(st.booleans()),
                         "kind": draw(st.sampled_from(["tempo", "pt-tempo+dynamics", "gibbs", "gradient", "correlations", "pt-tebd"])),
@@ -142,9 +148,51 @@ def _compute(kind, corr, bath, arrays):
     raise ValueError(kind)
 
 
+def _make_pt(corr, rot):
+    import oqupy
+    from oqupy import operators
+    O = np.diag([0.5, -0.5]).astype(complex) if not rot else 0.5 * operators.sigma("z") + 0.3 * operators.sigma("x")
+    return oqupy.pt_tempo_compute(oqupy.Bath(O, corr), 0.0, 0.35, oqupy.TempoParameters(dt=0.1, epsrel=1e-8, dkmax=2),
+                                  progress_type="silent")
+
+
+def _use_pt(kind, pt, arrays):
+    import oqupy
+    from oqupy import operators
+    if kind == "tensors":
+        return np.concatenate([pt.get_mpo_tensor(k).reshape(-1) for k in range(len(pt))] +
+                              [np.asarray(pt.get_cap_tensor(k)).reshape(-1) for k in range(len(pt) + 1)])
+    rho0, H, O = arrays["rho0"], arrays["H"], arrays["O"]
+    system = oqupy.System(H)
+    kw = dict(progress_type="silent")
+    if kind == "dynamics":
+        return np.array(oqupy.compute_dynamics(system, rho0, process_tensor=pt, **kw).states)
+    if kind == "correlations":
+        return np.nan_to_num(np.asarray(oqupy.compute_correlations(system, pt, O, H, slice(None), slice(None),
+                                                                   initial_state=rho0, **kw)[1]))
+    if kind == "gradient":
+        sx = operators.sigma("x")
+        psys = oqupy.ParameterizedSystem(lambda u: 0.5 * u * sx)
+        return np.asarray(oqupy.state_gradient(psys, rho0, arrays["target"], [pt], arrays["params"], **kw)["gradient"])
+    sx = operators.sigma("x")
+    chain = oqupy.SystemChain([2, 2])
+    chain.add_site_hamiltonian(0, H)
+    chain.add_nn_hamiltonian(0, sx, sx)
+    r = oqupy.PtTebd(oqupy.AugmentedMPS([rho0, rho0]), chain, [pt, None], oqupy.PtTebdParameters(0.1, 1e-9, 2),
+                     dynamics_sites=[0]).compute(3, **kw)
+    return np.array(r["dynamics"][0].states)
+
+
+def _arrays(src, lay):
+    return {k: layout(v, lay) if v.ndim == 2 and v.shape[0] == v.shape[1] else
+            (layout(np.hstack([v, v]), lay)[:, :1] if lay in ("F", "strided") else layout(v, "readonly" if lay == "readonly" else "C"))
+            for k, v in src.items()}
+
+
 def run_case(case):
     import oqupy
     out = Outcome()
+    pts = []            # (process tensor, reference tensors at creation)
     params = [
         {"type": "pl", "alpha": 0.2, "zeta": 1.0, "cutoff": case.get("wc0", 3.0), "cutoff_type": "exponential",
          "temperature": case.get("T0", [0.5, 0.5])[0]},
@@ -199,6 +247,41 @@ def run_case(case):
                 out.fail(f"bath-follows-later-changes:{op['what']}:{snap_p['type']}",
                          f"op {i}: bath.correlations.{op['what']}({op['x']}) = {got:.8g}, value at construction {want:.8g}")
                 return out
+        elif kind == "make-pt":
+            c = op["c"]
+            pt = _make_pt(corrs[c], op["rot"])
+            pts.append((pt, _use_pt("tensors", pt, None).copy(), dict(params[c]), op["rot"]))
+            used[c] = True
+        elif kind == "use-pt":
+            if not pts:
+                continue
+            pt, ref_t, p_snap, rot = pts[op["p"] % len(pts)]
+            reuse = True
+            lay = op["layout"]
+            src = {"rho0": rho0, "H": H, "O": O, "target": rho0.T.copy(), "params": np.linspace(0.1, 0.8, 6).reshape(6, 1)}
+            arrays = _arrays(src, lay)
+            before = {k: snap(v) for k, v in arrays.items()}
+            out.label("use-pt:" + op["kind"], "layout=" + lay)
+            try:
+                got = _use_pt(op["kind"], pt, arrays)
+            except Exception as exc:
+                out.fail(f"use-pt-raises:{op['kind']}:{lay}:{type(exc).__name__}", f"op {i}: {exc}")
+                return out
+            mutated = [k for k, v in arrays.items() if snap(v) != before[k]]
+            if mutated:
+                out.fail(f"caller-array-modified:{op['kind']}", f"op {i}: {mutated} changed (layout {lay})")
+                return out
+            now_t = _use_pt("tensors", pt, None)
+            if now_t.shape != ref_t.shape or not np.array_equal(now_t, ref_t):
+                out.fail(f"process-tensor-modified-by-use:{op['kind']}", f"op {i}: stored tensors of a pooled process tensor changed")
+                return out
+            if op["kind"] != "tensors":
+                fresh_pt = _make_pt(_fresh(p_snap), rot)
+                want = _use_pt(op["kind"], fresh_pt, {k: np.ascontiguousarray(np.array(v)) for k, v in src.items()})
+                if got.shape != want.shape or not np.abs(got - want).max() <= 1e-9 * max(1.0, float(np.abs(want).max())):
+                    out.fail(f"pooled-pt-differs-from-fresh:{op['kind']}",
+                             f"op {i}: deviation {float(np.abs(got - want).max()) if got.shape == want.shape else float('nan'):.3e}")
+                    return out
         else:
             c = op["c"]
             if op["use_bath"] and baths:
